@@ -54,24 +54,258 @@ def parseTerms? (s : String) : Option (List (Nat × Nat)) :=
     | [c, v] => do let c ← parseNat? c; let v ← parseNat? v; pure (c, v)
     | _ => none)
 
-/-- Execute one operation. `none` = malformed request. -/
+
+/-! ## The core language
+
+Typed operations over variable indices: the assignments, the arithmetic / assertion / equality /
+boolean building blocks, and EVERY reader and writer of the bound cache of `NativeGadget`
+(conversions, range checks, comparisons, recompositions, `div_rem`, `bnot`, the byte-typed
+assertions and equality tests). `execOp` parses a request into a `COp` and runs it with
+`COp.run`; the invariant theorem `bounds_sound` (Props/C04.lean) is an induction over lists of
+`COp`s. Operand types are checked where the Rust interface types them (`AssignedBit`,
+`AssignedByte`, `AssignedBounded`). -/
+inductive COp (F : Type) where
+  | assign | assignBit | assignByte
+  | fix (c : F) | fixBit (b : Bool) | fixByte (b : Nat)
+  | add (a b : Nat) | sub (a b : Nat) | neg (a : Nat) | mul (a b : Nat) (k : Option F)
+  | addc (a : Nat) (c : F) | mulc (a : Nat) (c : F) | lc (ts : List (F × Nat)) (k : F)
+  | sel (c a b : Nat)
+  | aeq (a b : Nat) | aneq (a b : Nat) | aeqf (a : Nat) (c : F) | aneqf (a : Nat) (c : F)
+  | iseq (a b : Nat) | isneq (a b : Nat) | iseqf (a : Nat) (c : F) | isneqf (a : Nat) (c : F)
+  | not (a : Nat) | and (l : List Nat) | or (l : List Nat) | xor (l : List Nat)
+  | b2n (a : Nat) | n2b (a : Nat) | y2n (a : Nat) | n2y (a : Nat)
+  | alf (a bound : Nat) | inlf (bound : Nat) | bnd (a n : Nat) | asltp2 (a k : Nat) | altp2 (k : Nat)
+  | bnot (a n : Nat)
+  | lt (a b : Nat) | leq (a b : Nat) | geq (a b : Nat) | gt (a b : Nat)
+  | ltf (a c : Nat) | leqf (a c : Nat) | geqf (a c : Nat) | gtf (a c : Nat)
+  | frombits (l : List Nat) | frombytes (l : List Nat)
+  | divrem (a d : Nat) (bound : Option Nat)
+  | yaeq (a b : Nat) | yaneq (a b : Nat) | yaeqf (a c : Nat) | yaneqf (a c : Nat)
+  | yiseq (a b : Nat) | yisneq (a b : Nat) | yiseqf (a c : Nat) | yisneqf (a c : Nat)
+
+def RunSt.cellOf (r : RunSt F) (i : Nat) : Option Cell := (r.vars[i]?).map (·.cell)
+
+/-- The cell of variable `i`, provided it has type `ty`. -/
+def RunSt.cellTy (r : RunSt F) (ty : Ty) (i : Nat) : Option Cell :=
+  match r.vars[i]? with
+  | some v => if v.ty = ty then some v.cell else none
+  | none => none
+
+def RunSt.cellsTy (r : RunSt F) (ty : Ty) (l : List Nat) : Option (List Cell) :=
+  l.mapM (r.cellTy ty)
+
+/-- The cell and bit bound of a variable of type `AssignedBounded`. -/
+def RunSt.cellD (r : RunSt F) (i : Nat) : Option (Cell × Nat) :=
+  match r.vars[i]? with
+  | some ⟨.D n, c⟩ => some (c, n)
+  | _ => none
+
+/-- Execute one operation of the core language. `none` = ill-typed or dangling operand. -/
+def COp.run (fi : FieldInfo) (r : RunSt F) : COp F → Option (RunSt F)
+  | .assign => let (c, s) := MidnightZK.C04.assign r.st; some (r.push .N c s)
+  | .assignBit => let (c, s) := MidnightZK.C04.assignBit r.st; some (r.push .B c s)
+  | .assignByte => let (c, s) := assignLessThanPow2 r.st 8; some (r.push .Y c s)
+  | .fix c => let (x, s) := assignFixed r.st c; some (r.push .N x s)
+  | .fixBit b => let (x, s) := assignFixed r.st (if b then (1 : F) else 0); some (r.push .B x s)
+  | .fixByte b =>
+    if b < 256 then let (x, s) := assignFixed r.st ((b : Nat) : F); some (r.push .Y x s) else none
+  | .add a b => do
+    let (x, s) := MidnightZK.C04.add r.st (← r.cellOf a) (← r.cellOf b); pure (r.push .N x s)
+  | .sub a b => do
+    let (x, s) := MidnightZK.C04.sub r.st (← r.cellOf a) (← r.cellOf b); pure (r.push .N x s)
+  | .neg a => do let (x, s) := MidnightZK.C04.neg r.st (← r.cellOf a); pure (r.push .N x s)
+  | .mul a b k => do
+    let (x, s) := MidnightZK.C04.mul r.st (← r.cellOf a) (← r.cellOf b) k; pure (r.push .N x s)
+  | .addc a c => do let (x, s) := addConstant r.st (← r.cellOf a) c; pure (r.push .N x s)
+  | .mulc a c => do let (x, s) := mulByConstant r.st (← r.cellOf a) c; pure (r.push .N x s)
+  | .lc ts k => do
+    let ts ← ts.mapM (fun (c, v) => (r.cellOf v).map (fun x => (c, x)))
+    let (x, s) := linearCombination r.st ts k; pure (r.push .N x s)
+  | .sel c a b => do
+    let (x, s) := select r.st (← r.cellOf c) (← r.cellOf a) (← r.cellOf b); pure (r.push .N x s)
+  | .aeq a b => do pure { r with st := gAssertEqual r.st (← r.cellOf a) (← r.cellOf b) }
+  | .aneq a b => do pure { r with st := assertNotEqual r.st (← r.cellOf a) (← r.cellOf b) }
+  | .aeqf a c => do pure { r with st := assertEqualToFixed r.st (← r.cellOf a) c }
+  | .aneqf a c => do pure { r with st := assertNotEqualToFixed r.st (← r.cellOf a) c }
+  | .iseq a b => do
+    let (x, s) := isEqual r.st (← r.cellOf a) (← r.cellOf b); pure (r.push .B x s)
+  | .isneq a b => do
+    let (x, s) := isNotEqual r.st (← r.cellOf a) (← r.cellOf b); pure (r.push .B x s)
+  | .iseqf a c => do let (x, s) := isEqualToFixed r.st (← r.cellOf a) c; pure (r.push .B x s)
+  | .isneqf a c => do let (x, s) := isNotEqualToFixed r.st (← r.cellOf a) c; pure (r.push .B x s)
+  | .not a => do let (x, s) := MidnightZK.C04.not r.st (← r.cellTy .B a); pure (r.push .B x s)
+  | .and l => do
+    match ← r.cellsTy .B l with
+    | [] => none
+    | b :: rest => let (x, s) := MidnightZK.C04.and r.st (b :: rest); pure (r.push .B x s)
+  | .or l => do
+    match ← r.cellsTy .B l with
+    | [] => none
+    | b :: rest => let (x, s) := MidnightZK.C04.or r.st (b :: rest); pure (r.push .B x s)
+  | .xor l => do
+    match ← r.cellsTy .B l with
+    | [] => none
+    | b :: rest => let (x, s) := MidnightZK.C04.xor r.st (b :: rest); pure (r.push .B x s)
+  | .b2n a => do let c ← r.cellTy .B a; pure (r.push .N c (convertBitToNative r.st c))
+  | .n2b a => do let (x, s) := gConvertToBit r.st (← r.cellOf a); pure (r.push .B x s)
+  | .y2n a => do let c ← r.cellTy .Y a; pure (r.push .N c (convertByteToNative r.st c))
+  | .n2y a => do let (x, s) := gConvertToByte r.st (← r.cellOf a); pure (r.push .Y x s)
+  | .alf a bound => do
+    if bound = 0 then none else pure { r with st := assertLowerThanFixed r.st (← r.cellOf a) bound }
+  | .inlf bound =>
+    if bound = 0 then none else
+    let (x, s) := assignLowerThanFixed r.st bound; some (r.push .N x s)
+  | .bnd a n => do
+    let c ← r.cellOf a
+    pure (r.push (.D n) c (assertLowerThanFixed r.st c (2 ^ n)))
+  | .asltp2 a k => do pure { r with st := assertLessThanPow2 r.st (← r.cellOf a) k }
+  | .altp2 k => let (x, s) := assignLessThanPow2 r.st k; some (r.push .N x s)
+  | .bnot a n => do let (x, s) := MidnightZK.C04.bnot r.st (← r.cellOf a) n; pure (r.push .N x s)
+  | .lt a b => do
+    let (x, y) := (← r.cellD a, ← r.cellD b)
+    let (o, s) := lowerThan r.st x.1 x.2 y.1 y.2; pure (r.push .B o s)
+  | .leq a b => do
+    let (x, y) := (← r.cellD a, ← r.cellD b)
+    let (o, s) := MidnightZK.C04.leq r.st x.1 x.2 y.1 y.2; pure (r.push .B o s)
+  | .geq a b => do
+    let (x, y) := (← r.cellD a, ← r.cellD b)
+    let (o, s) := MidnightZK.C04.geq r.st x.1 x.2 y.1 y.2; pure (r.push .B o s)
+  | .gt a b => do
+    let (x, y) := (← r.cellD a, ← r.cellD b)
+    let (o, s) := greaterThan r.st x.1 x.2 y.1 y.2; pure (r.push .B o s)
+  | .ltf a c => do
+    let x ← r.cellD a
+    let (o, s) := lowerThanFixed r.st x.1 x.2 c; pure (r.push .B o s)
+  | .leqf a c => do
+    let x ← r.cellD a
+    let (o, s) := leqFixed r.st x.1 x.2 c fi.p; pure (r.push .B o s)
+  | .geqf a c => do
+    let x ← r.cellD a
+    let (o, s) := geqFixed r.st x.1 x.2 c; pure (r.push .B o s)
+  | .gtf a c => do
+    let x ← r.cellD a
+    let (o, s) := greaterThanFixed r.st x.1 x.2 c fi.p; pure (r.push .B o s)
+  | .frombits l => do
+    let (x, s) := assignedFromLeBits r.st (← r.cellsTy .B l); pure (r.push .N x s)
+  | .frombytes l => do
+    let (x, s) := assignedFromLeBytes r.st (← r.cellsTy .Y l); pure (r.push .N x s)
+  | .divrem a d bound => do
+    if d = 0 then none else
+    let ((q, rm), s) := divRem r.st (← r.cellOf a) d bound (fi.p - 1)
+    pure ((r.push .N q s).push .N rm s)
+  | .yaeq a b => do pure { r with st := byteAssertEqual r.st (← r.cellTy .Y a) (← r.cellTy .Y b) }
+  | .yaneq a b => do pure { r with st := byteAssertNotEqual r.st (← r.cellTy .Y a) (← r.cellTy .Y b) }
+  | .yaeqf a c => do pure { r with st := byteAssertEqualToFixed r.st (← r.cellTy .Y a) ((c : Nat) : F) }
+  | .yaneqf a c => do
+    pure { r with st := byteAssertNotEqualToFixed r.st (← r.cellTy .Y a) ((c : Nat) : F) }
+  | .yiseq a b => do
+    let (x, s) := byteIsEqual r.st (← r.cellTy .Y a) (← r.cellTy .Y b); pure (r.push .B x s)
+  | .yisneq a b => do
+    let (x, s) := byteIsNotEqual r.st (← r.cellTy .Y a) (← r.cellTy .Y b); pure (r.push .B x s)
+  | .yiseqf a c => do
+    let (x, s) := byteIsEqualToFixed r.st (← r.cellTy .Y a) ((c : Nat) : F); pure (r.push .B x s)
+  | .yisneqf a c => do
+    let (x, s) := byteIsNotEqualToFixed r.st (← r.cellTy .Y a) ((c : Nat) : F); pure (r.push .B x s)
+
+/-- Run a program of the core language. -/
+def runCore (fi : FieldInfo) (r : RunSt F) : List (COp F) → Option (RunSt F)
+  | [] => some r
+  | o :: rest => do runCore fi (← o.run fi r) rest
+
+/-- Request tokens of the core language. -/
+def parseCore (ofNat : Nat → F) (toks : List String) : Option (COp F) :=
+  let cst (c : String) : Option F := (parseNat? c).map ofNat
+  match toks with
+  | ["in"] => some .assign
+  | ["inb"] => some .assignBit
+  | ["iny"] => some .assignByte
+  | ["fix", c] => do pure (.fix (← cst c))
+  | ["fixb", b] => do pure (.fixBit ((← parseNat? b) ≠ 0))
+  | ["fixy", b] => do pure (.fixByte (← parseNat? b))
+  | ["add", a, b] => do pure (.add (← parseNat? a) (← parseNat? b))
+  | ["sub", a, b] => do pure (.sub (← parseNat? a) (← parseNat? b))
+  | ["neg", a] => do pure (.neg (← parseNat? a))
+  | ["mul", a, b] => do pure (.mul (← parseNat? a) (← parseNat? b) none)
+  | ["mulk", a, b, k] => do pure (.mul (← parseNat? a) (← parseNat? b) (some (← cst k)))
+  | ["addc", a, c] => do pure (.addc (← parseNat? a) (← cst c))
+  | ["mulc", a, c] => do pure (.mulc (← parseNat? a) (← cst c))
+  | ["lc", terms, k] => do
+    let ts ← parseTerms? terms
+    pure (.lc (ts.map (fun (c, v) => (ofNat c, v))) (← cst k))
+  | ["sel", c, a, b] => do pure (.sel (← parseNat? c) (← parseNat? a) (← parseNat? b))
+  | ["aeq", a, b] => do pure (.aeq (← parseNat? a) (← parseNat? b))
+  | ["aneq", a, b] => do pure (.aneq (← parseNat? a) (← parseNat? b))
+  | ["aeqf", a, c] => do pure (.aeqf (← parseNat? a) (← cst c))
+  | ["aneqf", a, c] => do pure (.aneqf (← parseNat? a) (← cst c))
+  | ["az", a] => do pure (.aeqf (← parseNat? a) 0)
+  | ["anz", a] => do pure (.aneqf (← parseNat? a) 0)
+  | ["iseq", a, b] => do pure (.iseq (← parseNat? a) (← parseNat? b))
+  | ["isneq", a, b] => do pure (.isneq (← parseNat? a) (← parseNat? b))
+  | ["iseqf", a, c] => do pure (.iseqf (← parseNat? a) (← cst c))
+  | ["isneqf", a, c] => do pure (.isneqf (← parseNat? a) (← cst c))
+  | ["isz", a] => do pure (.iseqf (← parseNat? a) 0)
+  | ["not", a] => do pure (.not (← parseNat? a))
+  | ["and", l] => do pure (.and (← parseNatList? l))
+  | ["or", l] => do pure (.or (← parseNatList? l))
+  | ["xor", l] => do pure (.xor (← parseNatList? l))
+  | ["b2n", a] => do pure (.b2n (← parseNat? a))
+  | ["n2b", a] => do pure (.n2b (← parseNat? a))
+  | ["y2n", a] => do pure (.y2n (← parseNat? a))
+  | ["n2y", a] => do pure (.n2y (← parseNat? a))
+  | ["alf", a, bound] => do pure (.alf (← parseNat? a) (← parseNat? bound))
+  | ["inlf", bound] => do pure (.inlf (← parseNat? bound))
+  | ["bnd", a, n] => do pure (.bnd (← parseNat? a) (← parseNat? n))
+  | ["asltp2", a, k] => do pure (.asltp2 (← parseNat? a) (← parseNat? k))
+  | ["altp2", k] => do pure (.altp2 (← parseNat? k))
+  | ["bnot", a, n] => do pure (.bnot (← parseNat? a) (← parseNat? n))
+  | ["lt", a, b] => do pure (.lt (← parseNat? a) (← parseNat? b))
+  | ["leq", a, b] => do pure (.leq (← parseNat? a) (← parseNat? b))
+  | ["geq", a, b] => do pure (.geq (← parseNat? a) (← parseNat? b))
+  | ["gt", a, b] => do pure (.gt (← parseNat? a) (← parseNat? b))
+  | ["ltf", a, c] => do pure (.ltf (← parseNat? a) (← parseNat? c))
+  | ["leqf", a, c] => do pure (.leqf (← parseNat? a) (← parseNat? c))
+  | ["geqf", a, c] => do pure (.geqf (← parseNat? a) (← parseNat? c))
+  | ["gtf", a, c] => do pure (.gtf (← parseNat? a) (← parseNat? c))
+  | ["frombits", l] => do pure (.frombits (← parseNatList? l))
+  | ["frombytes", l] => do pure (.frombytes (← parseNatList? l))
+  -- decomposition.rs: `assigned_from_be_bits` / `assigned_from_be_bytes` reverse, then little-endian
+  | ["frombebits", l] => do pure (.frombits (← parseNatList? l).reverse)
+  | ["frombebytes", l] => do pure (.frombytes (← parseNatList? l).reverse)
+  | ["divrem", a, d, bound] => do pure (.divrem (← parseNat? a) (← parseNat? d) (← optNat? bound))
+  | ["yaeq", a, b] => do pure (.yaeq (← parseNat? a) (← parseNat? b))
+  | ["yaneq", a, b] => do pure (.yaneq (← parseNat? a) (← parseNat? b))
+  | ["yaeqf", a, c] => do pure (.yaeqf (← parseNat? a) (← parseNat? c))
+  | ["yaneqf", a, c] => do pure (.yaneqf (← parseNat? a) (← parseNat? c))
+  | ["yiseq", a, b] => do pure (.yiseq (← parseNat? a) (← parseNat? b))
+  | ["yisneq", a, b] => do pure (.yisneq (← parseNat? a) (← parseNat? b))
+  | ["yiseqf", a, c] => do pure (.yiseqf (← parseNat? a) (← parseNat? c))
+  | ["yisneqf", a, c] => do pure (.yisneqf (← parseNat? a) (← parseNat? c))
+  | _ => none
+
+/-- Does the request name an operation of the core language? -/
+def isCoreName (name : String) : Bool :=
+  ["in", "inb", "iny", "fix", "fixb", "fixy", "add", "sub", "neg", "mul", "mulk", "addc", "mulc",
+   "lc", "sel", "aeq", "aneq", "aeqf", "aneqf", "az", "anz", "iseq", "isneq", "iseqf", "isneqf",
+   "isz", "not", "and", "or", "xor", "b2n", "n2b", "y2n", "n2y", "alf", "inlf", "bnd", "asltp2",
+   "altp2", "bnot", "lt", "leq", "geq", "gt", "ltf", "leqf", "geqf", "gtf", "frombits",
+   "frombytes", "frombebits", "frombebytes", "divrem", "yaeq", "yaneq", "yaeqf", "yaneqf", "yiseq", "yisneq", "yiseqf",
+   "yisneqf"].contains name
+
+/-- Execute one operation: the core language through `COp.run`, the remaining operations
+(decompositions, bulk assignments, bit-typed variants, `pow`, `inv`, …) directly. `none` =
+malformed request. -/
 def execOp (fi : FieldInfo) (ofNat : Nat → F) (r : RunSt F) (toks : List String) : Option (RunSt F) := do
+  if isCoreName (toks.headD "") then (← parseCore ofNat toks).run fi r else
   let cell (i : String) : Option Cell := do
     let i ← parseNat? i
     let v ← r.vars[i]?
     pure v.cell
-  let var (i : String) : Option Var := do
-    let i ← parseNat? i
-    r.vars[i]?
   let cells (l : String) : Option (List Cell) := do
     let l ← parseNatList? l
     l.mapM (fun i => (r.vars[i]?).map (·.cell))
   let cst (c : String) : Option F := (parseNat? c).map ofNat
   let s := r.st
   match toks with
-  | ["in"] => let (c, s) := assign s; pure (r.push .N c s)
-  | ["inb"] => let (c, s) := assignBit s; pure (r.push .B c s)
-  | ["iny"] => let (c, s) := assignLessThanPow2 s 8; pure (r.push .Y c s)
   | ["inmany", n] => do
     let n ← parseNat? n
     let (cs, s) := assignMany s n; pure (r.pushMany .N cs s)
@@ -81,27 +315,8 @@ def execOp (fi : FieldInfo) (ofNat : Nat → F) (r : RunSt F) (toks : List Strin
   | ["inymany", n] => do
     let n ← parseNat? n
     let (cs, s) := assignManySmall s n 8; pure (r.pushMany .Y cs s)
-  | ["fix", c] => do let (x, s) := assignFixed s (← cst c); pure (r.push .N x s)
-  | ["fixb", b] => do
-    let b ← parseNat? b
-    let (x, s) := assignFixed s (if b ≠ 0 then (1 : F) else 0); pure (r.push .B x s)
-  | ["fixy", b] => do
-    let b ← parseNat? b
-    let (x, s) := assignFixed s (ofNat b); pure (r.push .Y x s)
-  | ["add", a, b] => do let (x, s) := add s (← cell a) (← cell b); pure (r.push .N x s)
-  | ["sub", a, b] => do let (x, s) := sub s (← cell a) (← cell b); pure (r.push .N x s)
-  | ["neg", a] => do let (x, s) := neg s (← cell a); pure (r.push .N x s)
-  | ["mul", a, b] => do let (x, s) := mul s (← cell a) (← cell b) none; pure (r.push .N x s)
-  | ["mulk", a, b, k] => do
-    let (x, s) := mul s (← cell a) (← cell b) (some (← cst k)); pure (r.push .N x s)
-  | ["addc", a, c] => do let (x, s) := addConstant s (← cell a) (← cst c); pure (r.push .N x s)
-  | ["mulc", a, c] => do let (x, s) := mulByConstant s (← cell a) (← cst c); pure (r.push .N x s)
   | ["sq", a] => do let (x, s) := square s (← cell a); pure (r.push .N x s)
   | ["pow", a, n] => do let (x, s) := pow s (← cell a) (← parseNat? n); pure (r.push .N x s)
-  | ["lc", terms, k] => do
-    let ts ← parseTerms? terms
-    let ts ← ts.mapM (fun (c, v) => (r.vars[v]?).map (fun x => (ofNat c, x.cell)))
-    let (x, s) := linearCombination s ts (← cst k); pure (r.push .N x s)
   | ["aam", a, x, b, y, c, z, k, m] => do
     let (o, s) := addAndMul s (← cst a) (← cell x) (← cst b) (← cell y) (← cst c) (← cell z)
       (← cst k) (← cst m)
@@ -114,28 +329,6 @@ def execOp (fi : FieldInfo) (ofNat : Nat → F) (r : RunSt F) (toks : List Strin
     let cs ← parseNatList? cs
     if xs.length ≠ cs.length then none else
     let (os, s) := addConstants s xs (cs.map ofNat); pure (r.pushMany .N os s)
-  | ["aeq", a, b] => do pure { r with st := gAssertEqual s (← cell a) (← cell b) }
-  | ["aneq", a, b] => do pure { r with st := assertNotEqual s (← cell a) (← cell b) }
-  | ["aeqf", a, c] => do pure { r with st := assertEqualToFixed s (← cell a) (← cst c) }
-  | ["aneqf", a, c] => do pure { r with st := assertNotEqualToFixed s (← cell a) (← cst c) }
-  | ["az", a] => do pure { r with st := assertZero s (← cell a) }
-  | ["anz", a] => do pure { r with st := assertNonZero s (← cell a) }
-  | ["iseq", a, b] => do let (x, s) := isEqual s (← cell a) (← cell b); pure (r.push .B x s)
-  | ["isneq", a, b] => do let (x, s) := isNotEqual s (← cell a) (← cell b); pure (r.push .B x s)
-  | ["iseqf", a, c] => do let (x, s) := isEqualToFixed s (← cell a) (← cst c); pure (r.push .B x s)
-  | ["isneqf", a, c] => do
-    let (x, s) := isNotEqualToFixed s (← cell a) (← cst c); pure (r.push .B x s)
-  | ["isz", a] => do let (x, s) := isZero s (← cell a); pure (r.push .B x s)
-  | ["and", l] => do
-    let l ← cells l
-    if l.isEmpty then none else let (x, s) := and s l; pure (r.push .B x s)
-  | ["or", l] => do
-    let l ← cells l
-    if l.isEmpty then none else let (x, s) := or s l; pure (r.push .B x s)
-  | ["xor", l] => do
-    let l ← cells l
-    if l.isEmpty then none else let (x, s) := xor s l; pure (r.push .B x s)
-  | ["not", a] => do let (x, s) := not s (← cell a); pure (r.push .B x s)
   | ["biseq", a, b] => do let (x, s) := bitIsEqual s (← cell a) (← cell b); pure (r.push .B x s)
   | ["bisneq", a, b] => do let (x, s) := bitIsNotEqual s (← cell a) (← cell b); pure (r.push .B x s)
   | ["biseqf", a, c] => do
@@ -148,8 +341,6 @@ def execOp (fi : FieldInfo) (ofNat : Nat → F) (r : RunSt F) (toks : List Strin
     pure { r with st := bitAssertEqualToFixed s (← cell a) ((← parseNat? c) ≠ 0) }
   | ["baneqf", a, c] => do
     pure { r with st := bitAssertNotEqualToFixed s (← cell a) ((← parseNat? c) ≠ 0) }
-  | ["sel", c, a, b] => do
-    let (x, s) := select s (← cell c) (← cell a) (← cell b); pure (r.push .N x s)
   | ["cswap", c, a, b] => do
     let ((x, y), s) := condSwap s (← cell c) (← cell a) (← cell b)
     pure ((r.push .N x s).push .N y s)
@@ -170,14 +361,8 @@ def execOp (fi : FieldInfo) (ofNat : Nat → F) (r : RunSt F) (toks : List Strin
     let l ← cells l
     let (x, s) := if l.length > fi.numBits then assignFixed s (0 : F) else leBitsLowerThan s l fi.p
     pure (r.push .B x s)
-  | ["b2n", a] => do let c ← cell a; pure (r.push .N c (s.updateBound c 2))
-  | ["n2b", a] => do let (x, s) := gConvertToBit s (← cell a); pure (r.push .B x s)
-  | ["n2y", a] => do let (x, s) := gConvertToByte s (← cell a); pure (r.push .Y x s)
-  | ["y2n", a] => do let c ← cell a; pure (r.push .N c (s.updateBound c 256))
   | ["rc", l, n] => do
     pure { r with st := assertValuesLowerThan2PowN s (← cells l) (← parseNat? n) }
-  | ["altp2", k] => do let (x, s) := assignLessThanPow2 s (← parseNat? k); pure (r.push .N x s)
-  | ["asltp2", a, k] => do pure { r with st := assertLessThanPow2 s (← cell a) (← parseNat? k) }
   | ["dfl", a, bl, ls] => do
     let ls ← parseNat? ls
     if ls = 0 then none else
@@ -185,58 +370,6 @@ def execOp (fi : FieldInfo) (ofNat : Nat → F) (r : RunSt F) (toks : List Strin
     pure (r.pushMany .N xs s)
   | ["ams", n, k] => do
     let (xs, s) := assignManySmall s (← parseNat? n) (← parseNat? k); pure (r.pushMany .N xs s)
-  | ["alf", a, bound] => do
-    let b ← parseNat? bound
-    if b = 0 then none else pure { r with st := assertLowerThanFixed s (← cell a) b }
-  | ["inlf", bound] => do
-    let (x, s) := assignLowerThanFixed s (← parseNat? bound); pure (r.push .N x s)
-  | ["bnd", a, n] => do
-    let n ← parseNat? n
-    let c ← cell a
-    pure (r.push (.D n) c (assertLowerThanFixed s c (2 ^ n)))
-  | ["lt", a, b] => do
-    let (x, y) := (← var a, ← var b)
-    match x.ty, y.ty with
-    | .D bx, .D by_ => let (o, s) := lowerThan s x.cell bx y.cell by_; pure (r.push .B o s)
-    | _, _ => none
-  | ["leq", a, b] => do
-    let (x, y) := (← var a, ← var b)
-    match x.ty, y.ty with
-    | .D bx, .D by_ => let (o, s) := leq s x.cell bx y.cell by_; pure (r.push .B o s)
-    | _, _ => none
-  | ["geq", a, b] => do
-    let (x, y) := (← var a, ← var b)
-    match x.ty, y.ty with
-    | .D bx, .D by_ => let (o, s) := geq s x.cell bx y.cell by_; pure (r.push .B o s)
-    | _, _ => none
-  | ["gt", a, b] => do
-    let (x, y) := (← var a, ← var b)
-    match x.ty, y.ty with
-    | .D bx, .D by_ => let (o, s) := greaterThan s x.cell bx y.cell by_; pure (r.push .B o s)
-    | _, _ => none
-  | ["ltf", a, c] => do
-    let x ← var a
-    match x.ty with
-    | .D bx => let (o, s) := lowerThanFixed s x.cell bx (← parseNat? c); pure (r.push .B o s)
-    | _ => none
-  | ["leqf", a, c] => do
-    let x ← var a
-    match x.ty with
-    | .D bx =>
-      let (o, s) := leqFixed s x.cell bx (← parseNat? c) fi.p; pure (r.push .B o s)
-    | _ => none
-  | ["geqf", a, c] => do
-    let x ← var a
-    match x.ty with
-    | .D bx =>
-      let (o, s) := geqFixed s x.cell bx (← parseNat? c); pure (r.push .B o s)
-    | _ => none
-  | ["gtf", a, c] => do
-    let x ← var a
-    match x.ty with
-    | .D bx =>
-      let (o, s) := greaterThanFixed s x.cell bx (← parseNat? c) fi.p; pure (r.push .B o s)
-    | _ => none
   | ["bits", a, nb, canon] => do
     let (xs, s) := assignedToLeBits s (← cell a) (← optNat? nb) ((← parseNat? canon) ≠ 0)
       fi.numBits fi.halfP
@@ -249,14 +382,31 @@ def execOp (fi : FieldInfo) (ofNat : Nat → F) (r : RunSt F) (toks : List Strin
     if per = 0 then none else
     let (xs, s) := assignedToLeChunks s (← cell a) per (← optNat? nb) fi.numBits
     pure (r.pushMany .N xs s)
+  -- decomposition.rs: `assigned_to_be_bits` / `assigned_to_be_bytes` = little-endian, reversed
+  | ["bebits", a, nb, canon] => do
+    let (xs, s) := assignedToLeBits s (← cell a) (← optNat? nb) ((← parseNat? canon) ≠ 0)
+      fi.numBits fi.halfP
+    pure (r.pushMany .B xs.reverse s)
+  | ["bebytes", a, nb] => do
+    let (xs, s) := assignedToLeBytes s (← cell a) (← optNat? nb) fi.numBits fi.halfP
+    pure (r.pushMany .Y xs.reverse s)
   | ["sgn0", a] => do let (x, s) := sgn0 s (← cell a) fi.halfP; pure (r.push .B x s)
-  | ["frombits", l] => do let (x, s) := assignedFromLeBits s (← cells l); pure (r.push .N x s)
-  | ["frombytes", l] => do let (x, s) := assignedFromLeBytes s (← cells l); pure (r.push .N x s)
-  | ["divrem", a, d, bound] => do
+  | ["band", a, b, n] => do
+    let (x, s) := bitwise MidnightZK.C04.and s (← cell a) (← cell b) (← parseNat? n) fi.numBits fi.halfP
+    pure (r.push .N x s)
+  | ["bor", a, b, n] => do
+    let (x, s) := bitwise MidnightZK.C04.or s (← cell a) (← cell b) (← parseNat? n) fi.numBits fi.halfP
+    pure (r.push .N x s)
+  | ["bxor", a, b, n] => do
+    let (x, s) := bitwise MidnightZK.C04.xor s (← cell a) (← cell b) (← parseNat? n) fi.numBits fi.halfP
+    pure (r.push .N x s)
+  | ["ysel", c, a, b] => do
+    let (x, s) := select s (← cell c) (← cell a) (← cell b); pure (r.push .Y x s)
+  | ["rem", a, d, bound] => do
     let d ← parseNat? d
     if d = 0 then none else
-    let ((q, rm), s) := divRem s (← cell a) d (← optNat? bound) (fi.p - 1)
-    pure ((r.push .N q s).push .N rm s)
+    let ((_, rm), s) := divRem s (← cell a) d (← optNat? bound) (fi.p - 1)
+    pure (r.push .N rm s)
   | _ => none
 
 /-- Split a token list at `;`. -/
@@ -377,6 +527,12 @@ def evalOp (fi : FieldInfo) (vals : Array Nat) (inputs : List Nat) (toks : List 
     if per = 0 then none else
     let n := (← optNat? nb).getD ((fi.numBits + per - 1) / per)
     out (limbsOf (← v a) (List.replicate n per))
+  | ["bebits", a, nb, _] => do out (natBits (← v a) ((← optNat? nb).getD fi.numBits)).reverse
+  | ["bebytes", a, nb] => do
+    let nb := (← optNat? nb).getD ((fi.numBits + 7) / 8)
+    out (limbsOf (← v a) (List.replicate nb 8)).reverse
+  | ["frombebits", l] => do out [fromLimbs 2 (← vs l).reverse % p]
+  | ["frombebytes", l] => do out [fromLimbs 256 (← vs l).reverse % p]
   | ["sgn0", a] => do out [(← v a) % 2]
   | ["frombits", l] => do out [fromLimbs 2 (← vs l) % p]
   | ["frombytes", l] => do out [fromLimbs 256 (← vs l) % p]
@@ -385,6 +541,22 @@ def evalOp (fi : FieldInfo) (vals : Array Nat) (inputs : List Nat) (toks : List 
     if d = 0 then none else
     let x ← v a
     out [x / d, x % d]
+  | ["rem", a, d, _] => do
+    let d ← parseNat? d
+    if d = 0 then none else
+    out [(← v a) % d]
+  | ["bnot", a, n] => do out [2 ^ (← parseNat? n) - 1 - (← v a)]
+  | ["band", a, b, _] => do out [(← v a) &&& (← v b)]
+  | ["bor", a, b, _] => do out [(← v a) ||| (← v b)]
+  | ["bxor", a, b, _] => do out [(← v a) ^^^ (← v b)]
+  | ["yaeq", _, _] | ["yaneq", _, _] | ["yaeqf", _, _] | ["yaneqf", _, _] => out []
+  | ["yiseq", a, b] => do out [b2n ((← v a) = (← v b))]
+  | ["yisneq", a, b] => do out [b2n ((← v a) ≠ (← v b))]
+  | ["yiseqf", a, k] => do out [b2n ((← v a) = (← parseNat? k))]
+  | ["yisneqf", a, k] => do out [b2n ((← v a) ≠ (← parseNat? k))]
+  | ["ysel", cd, a, b] => do
+    let (x, y) := (← v a, ← v b)
+    out [if (← v cd) = 1 then x else y]
   | _ => none
 
 def evalOps (fi : FieldInfo) (vals : Array Nat) (inputs : List Nat) :
